@@ -461,6 +461,11 @@ func (e *env) doDeliver(k int, keep bool) {
 		}
 	}
 	e.noteMainChain(m.to)
+	// the finality oracles are evaluated after every single delivery: a LIB advance must be judged on
+	// the chain that produced it, not on what later deliveries of the same step turned it into
+	if !x.Failed() {
+		e.checkAll()
+	}
 }
 
 func (e *env) flushNet() {
@@ -573,6 +578,14 @@ func (e *env) doRestart(i int) {
 		x.Count("status-dump-differs-after-restart", 1)
 	}
 	x.Logf("restart %d lib=%d", i, an)
+}
+
+// pfSig tells whether the Byzantine producer published a private branch in this run.
+func (e *env) pfSig() string {
+	if e.x.Out.Stats["fault.byzantine-"+kindName[kPrivateFork]] > 0 {
+		return "after-private-branch"
+	}
+	return "no-private-branch"
 }
 
 func (e *env) lib(i int) (uint64, string) {
@@ -923,7 +936,17 @@ func (e *env) checkAll() {
 				}
 			}
 			if len(prod) < need {
-				x.Fail("C08", "lib-without-quorum", "online", fmt.Sprintf("node %d made block %d irreversible with blocks of only %d distinct producers at or above it (need %d of %d)", i, no, len(prod), need, e.nbp), e.step)
+				var dump string
+				n.Do(func() { dump = n.DP.VerifLibStatusDump() })
+				chain := ""
+				for h := uint64(1); h <= best.BlockNo(); h++ {
+					var b *types.Block
+					n.Do(func() { b, _ = n.CS.VerifGetBlockByNo(h) })
+					if b != nil {
+						chain += fmt.Sprintf("%d:%s/c%d ", h, b.BPID2Str()[len(b.BPID2Str())-4:], b.GetHeader().GetConfirms())
+					}
+				}
+				x.Fail("C08", "lib-without-quorum", "online", fmt.Sprintf("node %d made block %d irreversible with blocks of only %d distinct producers at or above it (need %d of %d); status %s; chain %s", i, no, len(prod), need, e.nbp, dump, chain), e.step)
 				return
 			}
 		}
@@ -959,7 +982,21 @@ func (e *env) checkAll() {
 			var blk *types.Block
 			nb.Do(func() { blk, _ = nb.CS.VerifGetBlockByNo(libs[a].no) })
 			if blk != nil && blk.ID() != libs[a].hash {
-				x.Fail("C08", "conflicting-irreversible-blocks", fmt.Sprintf("byz=%d", len(e.byz)), fmt.Sprintf("nodes %d and %d hold irreversible blocks on conflicting branches (height %d)", a, b, libs[a].no), e.step)
+				info := ""
+				for _, q := range []int{a, b} {
+					nq := e.nodes[q]
+					var dump string
+					nq.Do(func() { dump = nq.DP.VerifLibStatusDump() })
+					info += fmt.Sprintf(" | node %d skew=%v status %s chain ", q, nq.Skew, dump)
+					for h := uint64(1); h <= nq.Best().BlockNo(); h++ {
+						var bb *types.Block
+						nq.Do(func() { bb, _ = nq.CS.VerifGetBlockByNo(h) })
+						if bb != nil {
+							info += fmt.Sprintf("%d:%s:%s/c%d ", h, bb.ID()[:4], bb.BPID2Str()[len(bb.BPID2Str())-4:], bb.GetHeader().GetConfirms())
+						}
+					}
+				}
+				x.Fail("C08", "conflicting-irreversible-blocks", fmt.Sprintf("byz=%d/%s", len(e.byz), e.pfSig()), fmt.Sprintf("nodes %d and %d hold irreversible blocks on conflicting branches (height %d)%s", a, b, libs[a].no, info), e.step)
 				return
 			}
 		}
